@@ -362,7 +362,7 @@ class Stream(object):
             if file_is_async:
                 yield from file.drain()
 
-        response.fields.parse(trailer_data)
+        response.fields.parse(trailer_data, strict=False)
 
     @classmethod
     def get_read_strategy(cls, response):
